@@ -17,7 +17,7 @@ cargo test -p garnish_lang_tests --test seeded_demo --offline > /tmp/confirm-$na
 # existing suite with the change (demo file removed): stable baseline must still pass
 rm tests/tests/seeded_demo.rs
 cargo test --workspace --no-fail-fast --offline > /tmp/confirm-$name-suite.log 2>&1
-fails=$(grep -cE "^test .* FAILED" /tmp/confirm-$name-suite.log)
+fails=$(grep -cE "^test [^ ]+ \.\.\. FAILED" /tmp/confirm-$name-suite.log)
 compiled=$(grep -c "^test result" /tmp/confirm-$name-suite.log)
 ok=0
 if [ $clean -eq 0 ] && [ $mut -ne 0 ] && [ "$fails" -eq 39 ] && [ "$compiled" -ge 5 ]; then ok=1; fi
